@@ -34,6 +34,18 @@
 #include <sys/mman.h>
 #include <sys/types.h>
 #include "TinyJAMBU.h"
+#ifdef TJD_TAINT
+#include <valgrind/memcheck.h>
+/* secrets are marked undefined for the duration of the library call; memcheck then reports every branch
+ * and every address that depends on them.  Outputs are made defined again before they are logged. */
+#define SECRET(p, n) do { if ((n) > 0) (void)VALGRIND_MAKE_MEM_UNDEFINED((p), (n)); } while (0)
+#define PUBLIC(p, n) do { if ((n) > 0) (void)VALGRIND_MAKE_MEM_DEFINED((p), (n)); } while (0)
+#define VG_ERRORS() ((long)VALGRIND_COUNT_ERRORS)
+#else
+#define SECRET(p, n) do { } while (0)
+#define PUBLIC(p, n) do { } while (0)
+#define VG_ERRORS() 0L
+#endif
 
 /* internal entry points the repository's own unit tests also use */
 typedef struct { uint32_t s[4]; uint32_t k[4]; } pstate128;
@@ -284,7 +296,11 @@ static void op_enc(void)
     const unsigned char *mp = gptr(&m);
     if (alias) { memcpy(c.p, m.p, m.len); mp = c.p; }
     gro(&k); gro(&n); gro(&ad); gro(&m);
+    long vg0 = VG_ERRORS();
+    SECRET(k.p, k.len); SECRET((void *)mp, m.len);
     get_enc(mode, v)(c.p, &clen, mp, m.len, gptr(&ad), ad.len, n.p, k.p);
+    PUBLIC(k.p, k.len); PUBLIC((void *)mp, m.len); PUBLIC(c.p, c.len); PUBLIC(&clen, sizeof(clen));
+    long vgerr = VG_ERRORS() - vg0;
     grw(&k); grw(&n); grw(&ad); grw(&m);
     int inmod = !(inputs_same(&m, mcopy) && inputs_same(&ad, adcopy) && inputs_same(&k, kcopy) && inputs_same(&n, ncopy));
     jbegin("Enc"); jstr("mode", mode); jint("v", v);
@@ -292,6 +308,7 @@ static void op_enc(void)
     jbytes("m", mcopy, m.len); jbytes("out", c.p, c.len); jint("clen", (long)clen);
     jint("keep", kvi("keep", 0)); jint("alias", alias); jint("inmod", inmod);
     jint("canary", gcanary(&c) && gcanary(&m) && gcanary(&ad) && gcanary(&k) && gcanary(&n));
+    jint("taint", vgerr);
     jend();
     free(mcopy); free(adcopy); free(kcopy); free(ncopy);
     gfree(&k); gfree(&n); gfree(&ad); gfree(&m); gfree(&c);
@@ -326,7 +343,13 @@ static void op_dec(int tagonly)
         mp = (outlen == 0 && kvi("mnull", 0)) ? NULL : m.p; cp = c.p;
         gro(&k); gro(&n); gro(&ad); gro(&c);
     }
+    long vg0 = VG_ERRORS();
+    SECRET(k.p, k.len);
     res = get_dec(mode, v)(mp, &mlen, cp, c.len, gptr(&ad), ad.len, n.p, k.p);
+    PUBLIC(k.p, k.len); PUBLIC(&res, sizeof(res)); PUBLIC(&mlen, sizeof(mlen));
+    if (mp) PUBLIC(mp, outlen);
+    PUBLIC(c.p, c.len);
+    long vgerr = VG_ERRORS() - vg0;
     grw(&k); grw(&n); grw(&ad); grw(&c);
     int inmod = !(inputs_same(&ad, adcopy) && inputs_same(&k, kcopy) && inputs_same(&n, ncopy));
     if (!alias) inmod |= !inputs_same(&c, ccopy);
@@ -346,6 +369,7 @@ static void op_dec(int tagonly)
     jbytes("mout", mp ? mp : m.p, outlen);
     jint("untouched", untouched); jint("alias", alias); jint("inmod", inmod);
     jint("canary", gcanary(&c) && gcanary(&m) && gcanary(&ad) && gcanary(&k) && gcanary(&n));
+    jint("taint", vgerr);
     jend();
     free(ccopy); free(adcopy); free(kcopy); free(ncopy);
     gfree(&k); gfree(&n); gfree(&ad); gfree(&c); gfree(&m);
@@ -369,11 +393,15 @@ static void op_checktag(void)
     gvalue(&pt, "pt", kv("pt", "-"), 0); gvalue(&t1, "tag1", kv("t1", "-"), 1); gvalue(&t2, "tag2", kv("t2", "-"), 2);
     unsigned char *ptcopy = dupbuf(&pt);
     gro(&t1); gro(&t2);
+    long vg0 = VG_ERRORS();
+    SECRET(pt.p, pt.len); SECRET(t1.p, t1.len); SECRET(t2.p, t2.len);
     int res = tinyjambu_aead_check_tag(pt.p, pt.len, t1.p, t2.p, t1.len);
+    PUBLIC(pt.p, pt.len); PUBLIC(t1.p, t1.len); PUBLIC(t2.p, t2.len); PUBLIC(&res, sizeof(res));
+    long vgerr = VG_ERRORS() - vg0;
     grw(&t1); grw(&t2);
     jbegin("CheckTag"); jbytes("pt", ptcopy, pt.len); jbytes("t1", t1.p, t1.len); jbytes("t2", t2.p, t2.len);
     jint("res", res); jbytes("ptout", pt.p, pt.len);
-    jint("canary", gcanary(&pt) && gcanary(&t1) && gcanary(&t2)); jend();
+    jint("canary", gcanary(&pt) && gcanary(&t1) && gcanary(&t2)); jint("taint", vgerr); jend();
     free(ptcopy);
     gfree(&pt); gfree(&t1); gfree(&t2);
 }
@@ -455,6 +483,7 @@ static void op_perm(void)
 /* ------------------------------------------------------------------ stateful objects */
 #define NOBJ 8
 static gbuf hashobj[NOBJ], hmacobj[NOBJ], hkdfobj[NOBJ], prngobj[NOBJ];
+static int obj_fill = 0xAA;      /* what a state object holds before the library first touches it */
 
 static gbuf *getobj(gbuf *tab, const char *name, size_t size)
 {
@@ -463,7 +492,7 @@ static gbuf *getobj(gbuf *tab, const char *name, size_t size)
     if (!tab[i].map) {
         /* state objects: 8-aligned (they hold unsigned long long), end flush against the guard page */
         galloc(&tab[i], name, size, 'e', 0);
-        memset(tab[i].p, 0xAA, size);
+        memset(tab[i].p, obj_fill, size);
     }
     return &tab[i];
 }
@@ -493,11 +522,16 @@ static void op_hash(void)
     memset(out.p, (int)kvi("pf", 0xA5), 32);
     unsigned char *mc = dupbuf(&m);
     gro(&m);
+    long vg0 = VG_ERRORS();
+    SECRET(m.p, m.len);
     tinyjambu_hash(out.p, gptr(&m), m.len);
+    PUBLIC(m.p, m.len); PUBLIC(out.p, 32);
+    long vgerr = VG_ERRORS() - vg0;
     grw(&m);
     jbegin("Hash");
     if (m.len <= BIGLOG) jbytes("m", mc, m.len); else { jstr("mspec", kv("m", "-")); jint("mlen", (long)m.len); }
-    jbytes("out", out.p, 32); jint("inmod", !inputs_same(&m, mc)); jint("canary", gcanary(&out) && gcanary(&m)); jend();
+    jbytes("out", out.p, 32); jint("inmod", !inputs_same(&m, mc)); jint("canary", gcanary(&out) && gcanary(&m));
+    jint("taint", vgerr); jend();
     free(mc); gfree(&m); gfree(&out);
 }
 static void op_hinit(int re)
@@ -542,11 +576,15 @@ static void op_hmac(void)
     memset(out.p, (int)kvi("pf", 0xA5), 32);
     unsigned char *kc = dupbuf(&k), *mc = dupbuf(&m);
     gro(&k); gro(&m);
+    long vg0 = VG_ERRORS();
+    SECRET(k.p, k.len); SECRET(m.p, m.len);
     tinyjambu_hmac(out.p, gptr(&k), k.len, gptr(&m), m.len);
+    PUBLIC(k.p, k.len); PUBLIC(m.p, m.len); PUBLIC(out.p, 32);
+    long vgerr = VG_ERRORS() - vg0;
     grw(&k); grw(&m);
     jbegin("Hmac"); jbytes("k", kc, k.len); jbytes("m", mc, m.len); jbytes("out", out.p, 32);
     jint("inmod", !(inputs_same(&k, kc) && inputs_same(&m, mc)));
-    jint("canary", gcanary(&out) && gcanary(&k) && gcanary(&m)); jend();
+    jint("canary", gcanary(&out) && gcanary(&k) && gcanary(&m)); jint("taint", vgerr); jend();
     free(kc); free(mc); gfree(&k); gfree(&m); gfree(&out);
 }
 static void op_hminit(int re)
@@ -602,15 +640,20 @@ static void op_hkdf(void)
     galloc(&out, "out", alloc, g_place, g_offn > 0 ? g_off[0] : 0);
     memset(out.p, pf, alloc);
     gro(&key); gro(&salt); gro(&info);
+    long vg0 = VG_ERRORS();
+    SECRET(key.p, key.len); SECRET(salt.p, salt.len);
     int res = tinyjambu_hkdf(out.p, len, gptr(&key), key.len, gptr(&salt), salt.len, gptr(&info), info.len);
+    PUBLIC(key.p, key.len); PUBLIC(salt.p, salt.len); PUBLIC(out.p, alloc); PUBLIC(&res, sizeof(res));
+    long vgerr = VG_ERRORS() - vg0;
     grw(&key); grw(&salt); grw(&info);
     int untouched = 1;
     for (size_t i = 0; i < alloc; i++) if (out.p[i] != pf) { untouched = 0; break; }
-    jbegin("Hkdf"); jint("len", (long)len); jbytes("key", key.p, key.len); jbytes("salt", salt.p, salt.len);
+    /* TLC integers are 32-bit: anything above 2^30 is logged as 2^30 (all of it is "more than 8160") */
+    jbegin("Hkdf"); jint("len", len > (1u << 30) ? (long)(1u << 30) : (long)len); jbytes("key", key.p, key.len); jbytes("salt", salt.p, salt.len);
     jint("saltnull", salt.isnull); jbytes("info", info.p, info.len); jint("res", res);
     if (alloc <= 8160) jbytes("out", out.p, alloc); else jint("outlen", (long)alloc);
     jint("untouched", untouched);
-    jint("canary", gcanary(&out) && gcanary(&key) && gcanary(&salt) && gcanary(&info)); jend();
+    jint("canary", gcanary(&out) && gcanary(&key) && gcanary(&salt) && gcanary(&info)); jint("taint", vgerr); jend();
     gfree(&key); gfree(&salt); gfree(&info); gfree(&out);
 }
 static void op_hkextract(void)
@@ -657,11 +700,15 @@ static void op_pbkdf2(void)
     galloc(&out, "out", len, g_place, g_offn > 0 ? g_off[0] : 0);
     memset(out.p, (int)kvi("pf", 0xA5), len);
     gro(&pw); gro(&salt);
+    long vg0 = VG_ERRORS();
+    SECRET(pw.p, pw.len); SECRET(salt.p, salt.len);
     tinyjambu_pbkdf2(gptr(&out), len, gptr(&pw), pw.len, gptr(&salt), salt.len, count);
+    PUBLIC(pw.p, pw.len); PUBLIC(salt.p, salt.len); PUBLIC(out.p, len);
+    long vgerr = VG_ERRORS() - vg0;
     grw(&pw); grw(&salt);
     jbegin("Pbkdf2"); jint("len", (long)len); jint("count", (long)count);
     jbytes("pw", pw.p, pw.len); jbytes("salt", salt.p, salt.len); jbytes("out", out.p, len);
-    jint("canary", gcanary(&out) && gcanary(&pw) && gcanary(&salt)); jend();
+    jint("canary", gcanary(&out) && gcanary(&pw) && gcanary(&salt)); jint("taint", vgerr); jend();
     gfree(&pw); gfree(&salt); gfree(&out);
 }
 
@@ -693,7 +740,7 @@ static size_t scripted_cb(void *user_data, unsigned char *buf, size_t size)
     else { n = 32; gen_data(tmp, 32, 0xE000 + (uint64_t)script_pos, 'r'); }
     script_pos++;
     if (n > (int)size) n = (int)size;
-    if (n > 0) memcpy(buf, tmp, (size_t)n);
+    if (n > 0) { memcpy(buf, tmp, (size_t)n); SECRET(buf, (size_t)n); }
     if (ncalls < MAXSCRIPT) {
         calls[ncalls].n = n; memcpy(calls[ncalls].bytes, tmp, 32); calls[ncalls].asked = size;
         calls[ncalls].udok = (user_data == (void *)&ud_cookie);
@@ -789,7 +836,10 @@ static void op_pgen(void)
     memset(out.p, pf, size);
     ncalls = 0;
     gen_out = out.p; gen_size = size; gen_pf = pf;
+    long vg0 = VG_ERRORS();
     tinyjambu_prng_generate((tinyjambu_prng_state_t *)o->p, size ? out.p : gptr(&out), size);
+    PUBLIC(out.p, size);
+    long vgerr = VG_ERRORS() - vg0;
     gen_out = NULL;
     emit_obj("PGen", o); jint("size", (long)size);
     if (size <= BIGLOG) jbytes("out", out.p, size);
@@ -800,7 +850,7 @@ static void op_pgen(void)
         jbytes("first", out.p, 32); jbytes("last", out.p + size - 32, 32); jint("repeats", (long)rep);
     }
     if (size <= BIGLOG) jint("repeats", 0);
-    jint("ocanary", gcanary(&out)); jentropy(); jend();
+    jint("ocanary", gcanary(&out)); jint("taint", vgerr); jentropy(); jend();
     gfree(&out);
 }
 static void op_pfeed(void)
@@ -872,6 +922,7 @@ static void op_reset(void)
         if (prngobj[i].map) gfree(&prngobj[i]);
     }
     script_len = script_pos = 0;
+    obj_fill = (int)kvi("fill", 0xAA);
     jbegin("Reset"); jend();
 }
 
